@@ -92,6 +92,13 @@ def match_crafts(a, pa, pb):
                 dg = cx.digest if len(cx.digest) == len(ci.digest) else ci.digest
                 h = clone_header(pa); h.chunks[i] = Chunk(dg, ci.clen, cx.ulen + du, ud)
                 out.append(("mcraft%d-on-entry%d-ulen%+d" % (x, i, du), h.build() + body))
+            # digests in the wrong column: the entry's stored-bytes digest is the target chunk's uncompressed digest (and
+            # the other way round) while the column that matters differs - a table keyed on the wrong field pairs them
+            if cx.udigest is not None and ci.udigest is not None and len(cx.udigest) == len(ci.digest) and cx.udigest != ci.udigest:
+                h = clone_header(pa); h.chunks[i] = Chunk(cx.udigest, ci.clen, cx.ulen, ci.udigest)
+                out.append(("mcraft%d-on-entry%d-udigest-in-digest-column" % (x, i), h.build() + body))
+                h = clone_header(pa); h.chunks[i] = Chunk(ci.digest, ci.clen, cx.ulen, cx.digest if len(cx.digest) == len(ci.udigest) else ci.udigest)
+                out.append(("mcraft%d-on-entry%d-digest-in-udigest-column" % (x, i), h.build() + body))
     return out
 
 
